@@ -12,6 +12,6 @@ else
 fi
 cd /verif && timeout 3000 ./check "$prop" "$tier" > /tmp/trymut.out 2>&1; rc=$?
 git -C /repo checkout -- .
-grep -E "^(VIOLATION|SUMMARY|KNOWN|INCONCLUSIVE|BUILD-FAILED|BROKEN)" /tmp/trymut.out | cut -c1-300 | head -12
-grep -A2 "^VIOLATION" /tmp/trymut.out | grep -v "^VIOLATION\|^--" | cut -c1-300 | head -8
+grep -a -E "^(VIOLATION|SUMMARY|KNOWN|INCONCLUSIVE|BUILD-FAILED|BROKEN)" /tmp/trymut.out | cut -c1-300 | head -12
+grep -a -A2 "^VIOLATION" /tmp/trymut.out | grep -a -v "^VIOLATION\|^--" | cut -c1-300 | head -8
 echo "exit=$rc"
